@@ -267,7 +267,7 @@ var bceTable = []bceRow{
 	{fn: "(*Client).onPUBLISH", kind: "IsSliceInBounds", expr: "‹*Client›.peek[‹int›:]", reason: "i ≤ len(c.peek) from the topic test, respectively i+2 ≤ len(c.peek) before i += 2", guard: peekWithin(0)},
 	{fn: "(*volatile).Save", kind: "IsSliceInBounds", expr: "‹[]byte›[‹int›:]", reason: "the offset is the sum of the lengths copied so far and the destination was made with the sum of all lengths"},
 	{fn: "(*Client).applySeqNoAndEnqueue", kind: "IsInBounds", expr: "‹Buffers›[0]", reason: "submitPersisted is only called with the two-element net.Buffers of publishPacket (checked: every call site)"},
-	{fn: "(*Client).applySeqNoAndEnqueue", kind: "IsSliceInBounds", expr: "‹[]byte›[‹int›:]", reason: "the first buffer is the header built by publishPacket with a packet identifier: it ends in the two identifier bytes, so len-2 ≥ 0"},
+	{fn: "(*Client).applySeqNoAndEnqueue", kind: "IsSliceInBounds", expr: "‹Buffers›[0][len(‹Buffers›[0]) - 2:]", reason: "the first buffer is the header built by publishPacket with a packet identifier: it ends in the two identifier bytes, so len-2 ≥ 0"},
 	{fn: "AdoptSession", kind: "IsInBounds", expr: "‹[]byte›[0]", reason: "the decoded packet of an outbound or marker key: every Save site stores at least one packet byte; the only possibly empty record (client identifier) is skipped before"},
 	{fn: "AdoptSession", kind: "IsInBounds", expr: "‹[]uint›[‹int›]", reason: "inside the less function of sort.Slice, which is called with 0 ≤ i,j < len (trusted)"},
 	{fn: "AdoptSession", kind: "IsInBounds", expr: "‹[]uint›[0]", reason: "the indexed list is tested non-empty on every path to the access", guard: nonEmptyIndexed},
@@ -449,12 +449,18 @@ func (c *Ctx) pan1() {
 
 func blockHasIndexOnLine(c *Ctx, b *ssa.BasicBlock, line int) bool {
 	for _, ins := range b.Instrs {
-		switch ins.(type) {
+		switch x := ins.(type) {
 		case *ssa.IndexAddr, *ssa.Slice, *ssa.Index, *ssa.Call:
 			if ins.Pos().IsValid() && c.P.Fset.Position(ins.Pos()).Line == line {
-				if _, isCall := ins.(*ssa.Call); isCall {
+				if call, isCall := ins.(*ssa.Call); isCall {
+					for _, a := range call.Call.Args {
+						if sl, ok := a.(*ssa.Slice); ok && c.P.Fset.Position(sl.Pos()).Line != line {
+							return true
+						}
+					}
 					continue
 				}
+				_ = x
 				return true
 			}
 		}
@@ -466,29 +472,43 @@ func blockHasIndexOnLine(c *Ctx, b *ssa.BasicBlock, line int) bool {
 // receivers included) replaced by its type, so that renaming a variable does
 // not change the key: c.peek[2:i] becomes ‹*Client›.peek[2:‹int›].
 func normExpr(pkg *packages.Package, e ast.Expr) string {
+	defs := singleDefs(pkg)
+	depth := 0
 	var render func(n ast.Expr) string
 	render = func(n ast.Expr) string {
 		switch x := n.(type) {
 		case *ast.Ident:
 			if obj, ok := pkg.TypesInfo.Uses[x].(*types.Var); ok && !obj.IsField() && obj.Parent() != pkg.Types.Scope() && obj.Pkg() == pkg.Types {
+				// a local that is defined once, by a plain expression, and never
+				// assigned again reads as that expression: n := len(x); x[n-1]
+				// is x[len(x)-1]
+				if d, ok := defs[obj]; ok && depth < 3 {
+					depth++
+					s := render(d)
+					depth--
+					if _, isBin := d.(*ast.BinaryExpr); isBin {
+						s = "(" + s + ")"
+					}
+					return s
+				}
 				return "‹" + types.TypeString(obj.Type(), func(*types.Package) string { return "" }) + "›"
 			}
 			return x.Name
 		case *ast.SelectorExpr:
 			return render(x.X) + "." + x.Sel.Name
 		case *ast.IndexExpr:
-			return render(x.X) + "[" + render(x.Index) + "]"
+			return render(x.X) + "[" + bareParens(render(x.Index)) + "]"
 		case *ast.SliceExpr:
 			s := render(x.X) + "["
 			if x.Low != nil {
-				s += render(x.Low)
+				s += bareParens(render(x.Low))
 			}
 			s += ":"
 			if x.High != nil {
-				s += render(x.High)
+				s += bareParens(render(x.High))
 			}
 			if x.Max != nil {
-				s += ":" + render(x.Max)
+				s += ":" + bareParens(render(x.Max))
 			}
 			return s + "]"
 		case *ast.CallExpr:
@@ -516,10 +536,21 @@ func normExpr(pkg *packages.Package, e ast.Expr) string {
 func indexInstrsOnLine(c *Ctx, b *ssa.BasicBlock, line int) []ssa.Instruction {
 	var out []ssa.Instruction
 	for _, ins := range b.Instrs {
-		switch ins.(type) {
+		switch x := ins.(type) {
 		case *ssa.IndexAddr, *ssa.Slice, *ssa.Index:
 			if ins.Pos().IsValid() && c.P.Fset.Position(ins.Pos()).Line == line {
 				out = append(out, ins)
+			}
+		case *ssa.Call:
+			// a slice taken into a local on an earlier line and handed to an
+			// inlined accessor here (binary.BigEndian.Uint16(rest)): the bounds
+			// check reported on this line is about that slice
+			if ins.Pos().IsValid() && c.P.Fset.Position(ins.Pos()).Line == line {
+				for _, a := range x.Call.Args {
+					if sl, ok := a.(*ssa.Slice); ok && c.P.Fset.Position(sl.Pos()).Line != line {
+						out = append(out, sl)
+					}
+				}
 			}
 		}
 	}
@@ -757,4 +788,139 @@ func (c *Ctx) lenRelationAtCalls(fn *ssa.Function, p, q *ssa.Parameter) (bool, s
 		return false, "no call of the helper was found on any path"
 	}
 	return true, fmt.Sprintf("%s is indexed below len(%s); every one of the %d path visits of a call has established len(%s) ≥ len(%s) before the call", p.Name(), q.Name(), sites, p.Name(), q.Name())
+}
+
+var singleDefCache = map[*packages.Package]map[*types.Var]ast.Expr{}
+
+// singleDefs: the local variables of pkg that are defined exactly once (x := e
+// or var x = e), by an expression without calls other than len, cap and
+// conversions, and are never assigned, incremented, ranged over or
+// address-taken afterwards.
+func singleDefs(pkg *packages.Package) map[*types.Var]ast.Expr {
+	if m, ok := singleDefCache[pkg]; ok {
+		return m
+	}
+	def := map[*types.Var]ast.Expr{}
+	bad := map[*types.Var]bool{}
+	plain := func(e ast.Expr) bool {
+		ok := true
+		ast.Inspect(e, func(n ast.Node) bool {
+			switch x := n.(type) {
+			case *ast.CallExpr:
+				if id, isID := x.Fun.(*ast.Ident); isID && (id.Name == "len" || id.Name == "cap") {
+					return true
+				}
+				if tv, has := pkg.TypesInfo.Types[x.Fun]; has && tv.IsType() {
+					return true
+				}
+				ok = false
+			case *ast.FuncLit, *ast.CompositeLit:
+				ok = false
+			case *ast.UnaryExpr:
+				if x.Op == token.ARROW || x.Op == token.AND {
+					ok = false
+				}
+			}
+			return ok
+		})
+		return ok
+	}
+	varOf := func(e ast.Expr) *types.Var {
+		id, ok := e.(*ast.Ident)
+		if !ok {
+			return nil
+		}
+		if v, ok := pkg.TypesInfo.Defs[id].(*types.Var); ok {
+			return v
+		}
+		if v, ok := pkg.TypesInfo.Uses[id].(*types.Var); ok {
+			return v
+		}
+		return nil
+	}
+	for _, f := range pkg.Syntax {
+		ast.Inspect(f, func(n ast.Node) bool {
+			switch x := n.(type) {
+			case *ast.AssignStmt:
+				for i, l := range x.Lhs {
+					v := varOf(l)
+					if v == nil {
+						continue
+					}
+					id := l.(*ast.Ident)
+					_, isDef := pkg.TypesInfo.Defs[id].(*types.Var)
+					if x.Tok == token.DEFINE && isDef && len(x.Lhs) == len(x.Rhs) && plain(x.Rhs[i]) {
+						if _, dup := def[v]; dup {
+							bad[v] = true
+						}
+						def[v] = x.Rhs[i]
+					} else {
+						bad[v] = true
+					}
+				}
+			case *ast.ValueSpec:
+				for i, id := range x.Names {
+					if v, ok := pkg.TypesInfo.Defs[id].(*types.Var); ok {
+						if len(x.Values) == len(x.Names) && plain(x.Values[i]) {
+							def[v] = x.Values[i]
+						} else {
+							bad[v] = true
+						}
+					}
+				}
+			case *ast.IncDecStmt:
+				if v := varOf(x.X); v != nil {
+					bad[v] = true
+				}
+			case *ast.RangeStmt:
+				for _, e := range []ast.Expr{x.Key, x.Value} {
+					if e != nil {
+						if v := varOf(e); v != nil {
+							bad[v] = true
+						}
+					}
+				}
+			case *ast.UnaryExpr:
+				if x.Op == token.AND {
+					if v := varOf(x.X); v != nil {
+						bad[v] = true
+					}
+				}
+			}
+			return true
+		})
+	}
+	for v := range bad {
+		delete(def, v)
+	}
+	// (a definition may read a variable that is reassigned later: the text is
+	// only the key that finds the table row — the guard of the row is verified
+	// on the SSA values, which are the ones at the definition)
+	for v := range def {
+		if v.Parent() == pkg.Types.Scope() {
+			delete(def, v)
+		}
+	}
+	singleDefCache[pkg] = def
+	return def
+}
+
+// bareParens drops one pair of parentheses that encloses the whole text.
+func bareParens(s string) string {
+	if len(s) < 2 || s[0] != '(' || s[len(s)-1] != ')' {
+		return s
+	}
+	d := 0
+	for i, r := range s {
+		switch r {
+		case '(':
+			d++
+		case ')':
+			d--
+			if d == 0 && i != len(s)-1 {
+				return s
+			}
+		}
+	}
+	return s[1 : len(s)-1]
 }
